@@ -403,6 +403,32 @@ def MergeTotalOnNulls : Prop :=
     (∀ a ∈ args, (isMapTy a.ty || isObjectTy a.ty) = true ∧ a.whollyKnown = true ∧ a.containsMarked = false) →
     ∀ w, f.call E args ≠ .err (.panicError w)
 
+/-- …what holds: for arguments that all have one MAP type, nulls included (they
+contribute nothing), the `Type` callback answers that map type and the `Impl`
+returns a map of exactly that type holding the merged bindings; for objects see
+`merge_object` (the result is the object of the merged bindings of the non-null
+arguments, whose type lacks the attributes that only null arguments declare). -/
+theorem mergeTotalOnNulls_partial (E : Env) (e : Ty) (he : e.equals e = true)
+    (args : List Value) (hne : args ≠ [])
+    (hty : ∀ a ∈ args, a.ty = .map e)
+    (h : ∀ a ∈ args, a.isNull = false → Iterable E a)
+    (hm : ∀ a ∈ args, a.v.isMarked = false)
+    (hb : ∀ kv ∈ allBindings E args, kv.2.ty = e) :
+    mergeType args = .ok (.map e) ∧
+    ∃ out, mergeImpl E args (.map e) =
+        .ok ⟨.map e, .smap (out.map (·.1)) (Gocty.payloads (out.map (·.2)))⟩ ∧
+      Spec.IsMapOf (allBindings E args) out := by
+  refine ⟨?_, mergeImpl_map E e he args h hm hb⟩
+  apply mergeType_same (.map e) rfl (by simpa [Ty.equals] using he) (by simp [Ty.equals]) args hne
+  intro a ha
+  refine ⟨hty a ha, ?_⟩
+  have hu : a.unmark = a := unmark_of_unmarked a (hm a ha)
+  rw [hu]
+  by_cases hn : a.isNull = true
+  · exact Or.inl hn
+  · obtain ⟨_, ks, vs, hk, _⟩ := h a ha (by simpa using hn)
+    exact Or.inr ⟨ks, hk⟩
+
 /-- witness: a single null of an object type with an attribute.  The `Type`
 callback answers the argument's own object type (all types "match"), the `Impl`
 skips the null and returns the empty object, and `Call` reports that the result
